@@ -22,22 +22,31 @@ func hBucketIndices12(i *Iblt, h uint64) []uint32 {
 	return []uint32{1, 3, 5, 7, 9, 11}
 }
 
+// hKeyWithParity returns a concrete key (real murmur3 hash) whose hash has the requested parity.
+func hKeyWithParity(f *Iblt, parity uint64, tag byte) (hash.SHA256Hash, uint64) {
+	var k hash.SHA256Hash
+	k[1] = tag
+	for b := 0; b < 256; b++ {
+		k[0] = byte(b)
+		if kh := f.hashKey(k); kh%2 == parity {
+			return k, kh
+		}
+	}
+	panic("no key with the requested hash parity")
+}
+
 // H19b3: Decode of a crafted (inconsistent) filter terminates. The filter is what a hostile peer can send:
 // two keys, each inserted into an arbitrary subset of its six buckets (so bucket counts and sums are
-// mutually inconsistent), in a 12-bucket table.
+// mutually inconsistent), in a 12-bucket table. The keys are concrete (real hashes); the 4096 subsets are
+// the symbolic input.
 func H19b3() {
 	hPeels = 0
 	f := NewIblt(12)
-	var keys [2]hash.SHA256Hash
 	for k := 0; k < 2; k++ {
-		kb := vBytes(1)
-		keys[k][0] = kb[0]
-		keys[k][1] = byte(k + 1) // distinct keys
-		kh := f.hashKey(keys[k])
-		vAssume(kh%2 == uint64(k)) // key 0 in the even buckets, key 1 in the odd ones
+		key, kh := hKeyWithParity(f, uint64(k), byte(k+1))
 		for _, idx := range []uint32{0, 2, 4, 6, 8, 10} {
 			if vBool() {
-				f.buckets[idx+uint32(k)].insert(keys[k], kh)
+				f.buckets[idx+uint32(k)].insert(key, kh)
 			}
 		}
 	}
@@ -54,11 +63,10 @@ func H19b3() {
 func H19b3_twin() {
 	hPeels = 0
 	f := NewIblt(12)
-	var k hash.SHA256Hash
-	k[0] = vU8()
-	kh := f.hashKey(k)
-	vAssume(kh%2 == 0)
-	f.buckets[2].insert(k, kh)
+	k, kh := hKeyWithParity(f, 0, 1)
+	if vBool() {
+		f.buckets[2].insert(k, kh)
+	}
 	if _, _, err := f.Decode(); err == ErrDecodeLoop {
 		vAssert(false, "H19b3_twin.reach: reachable")
 	}
